@@ -84,8 +84,7 @@ def run(ctx):
         if sel is not None:
             payload = fld(deref(fld(deref(arg(1)), 0)), 1)
             it = SEL.canon_place(SEL.unref(sel["iter"]))
-            it_ok = it[0] == "aggr" and it[1][:3] == ("adt", "multiboot2_common::iter::TagIter", "TagIter") and it[2][0] == ("c", 0) and \
-                SEL.canon_place(SEL.unref(it[2][1])) == SEL.canon_place(payload)
+            it_ok = c03.tagiter_fresh(it, payload, canon=lambda x: SEL.canon_place(SEL.unref(x)))
             typ_of_tag = fld(fld(deref(SEL.ELEM), 0), 0)
             sides = SEL.eq_sides(sel["pred"])
             pred_ok = False
@@ -115,8 +114,7 @@ def run(ctx):
         rt, _ = an.of(F, it).ret()
         n_ = N(rt) if rt is not None else None
         payload = ("ref", fld(deref(fld(deref(arg(1)), 0)), 1))
-        g = n_ is not None and n_[0] == "aggr" and n_[1][1] == "multiboot2_common::iter::TagIter" and dict(zip(n_[1][3], n_[2])).get("next_tag_offset") == ("c", 0) \
-            and dict(zip(n_[1][3], n_[2])).get("buffer") == payload
+        g = n_ is not None and c03.tagiter_fresh(n_, payload)
         ds = F.adts.get("multiboot2_common::DynSizedStructure<multiboot2_header::header::Multiboot2BasicHeader>")
         ctx.check(g and bool(ds) and ds["tail"]["off"] == 16, "H4", "iter", "iter() walks exactly the header's payload: from byte 16 to the declared length", it.get("span", ""),
                   how=G.show(rt)[:160], why=G.show(rt)[:300])
